@@ -119,7 +119,11 @@ func realOfLink(run *Run, i int) *RealEnd {
 	return nil
 }
 
-func oracleC03(run *Run) {
+func oracleC03(run *Run) { oracleConformant(run, "C03") }
+
+// oracleConformant: a real reader consumed a conformant script; everything the
+// script encodes must have been delivered, then the close reported.
+func oracleConformant(run *Run, prop string) {
 	commonChecks(run)
 	l := &run.Scn.Links[0]
 	e := realOfLink(run, 0)
@@ -138,24 +142,24 @@ func oracleC03(run *Run) {
 			term = o.Rec.Note
 		}
 	}
-	matched, errAt := checkDelivery(run, "C03", who, want, obs, term)
+	matched, errAt := checkDelivery(run, prop, who, want, obs, term)
 	run.Obligations += matched
 	if rt == nil || !rt.Finished || run.Reason != "done" {
-		run.fail("C03", "reader-stuck", "stuck", "%s: the read program did not finish (reason %s); %d of %d messages delivered", who, run.Reason, matched, len(want))
+		run.fail(prop, "reader-stuck", "stuck", "%s: the read program did not finish (reason %s); %d of %d messages delivered", who, run.Reason, matched, len(want))
 		return
 	}
 	if matched != len(want) {
-		run.fail("C03", "missing-message", "missing", "%s: only %d of %d messages were delivered before the read API reported an error", who, matched, len(want))
+		run.fail(prop, "missing-message", "missing", "%s: only %d of %d messages were delivered before the read API reported an error", who, matched, len(want))
 	}
 	if errAt < len(obs) {
 		o := obs[errAt]
 		if o.Err != "CloseError:1000" {
-			run.fail("C03", "wrong-terminal-error", "terminal", "%s: stream ended with a close frame 1000 but the read API reported %s (%s)", who, o.Err, o.ErrText)
+			run.fail(prop, "wrong-terminal-error", "terminal", "%s: stream ended with a close frame 1000 but the read API reported %s (%s)", who, o.Err, o.ErrText)
 		}
 	} else {
-		run.fail("C03", "no-terminal-error", "terminal", "%s: the close frame was not reported", who)
+		run.fail(prop, "no-terminal-error", "terminal", "%s: the close frame was not reported", who)
 	}
 	for _, p := range run.Panics {
-		run.fail("C03", "panic", "panic", "%s", p)
+		run.fail(prop, "panic", "panic", "%s", p)
 	}
 }
